@@ -361,3 +361,60 @@ static void run_subdiv(std::istringstream& in) {
   for (size_t v = 0; v < vb.size(); ++v) o << " " << vb[v].tri;
   puts(o.str().c_str());
 }
+
+// X id shape seed nops : random sequences of Impl::CollapseEdge2 (short merger: the geometric
+// reject block is skipped) and Impl::SwapEdge on valid halfedges; one line per operation with the
+// complete integer state before and after (start, pair, prop per halfedge; vertPos_.size();
+// NumProp(); number of property vertices).
+static void dump_state(std::ostringstream& o, const Manifold::Impl& m) {
+  o << " " << m.halfedge_.size();
+  for (size_t i = 0; i < m.halfedge_.size(); ++i)
+    o << " " << m.halfedge_.Start(i) << " " << m.halfedge_.Pair(i) << " " << m.halfedge_.Prop(i);
+  o << " " << m.vertPos_.size() << " " << m.NumProp() << " " << (m.NumProp() ? m.properties_.size() / m.NumProp() : 0);
+}
+static void run_edgeops(std::istringstream& in) {
+  std::string id;
+  int shape, nops;
+  uint64_t seed;
+  in >> id >> shape >> seed >> nops;
+  std::mt19937_64 rng(seed);
+  Manifold m = shape == 0 ? Manifold::Sphere(1, 4) : shape == 1 ? Manifold::Cube() : shape == 2 ? Manifold::Sphere(1, 8)
+             : shape == 3 ? Manifold::Cube(vec3(1, 2, 1.5), true).CalculateNormals(0, 60)
+             : shape == 4 ? Manifold::Tetrahedron() : Manifold::Cylinder(1, 1, 1, 5);
+  Manifold::Impl impl = *impl_of(m);
+  impl.halfedge_.MakeUnique();
+  Vec<int> scratch;
+  long live0 = 0;
+  for (size_t t = 0; t < impl.halfedge_.size() / 3; ++t) live0 += impl.halfedge_.Pair(3 * t) >= 0;
+  const size_t slots0 = impl.halfedge_.size();
+  for (int k = 0; k < nops; ++k) {
+    std::vector<int> valid;
+    for (int e = 0; e < (int)impl.halfedge_.size(); ++e)
+      if (impl.halfedge_.Valid(e)) valid.push_back(e);
+    if (valid.empty()) break;
+    const int e = valid[rng() % valid.size()];
+    const bool swap = rng() % 3 == 0;
+    std::ostringstream o;
+    o << "X " << id << "." << k << " " << (swap ? "W" : "C") << " " << e << " ST0";
+    dump_state(o, impl);
+    bool did = true;
+    if (swap) {
+      impl.SwapEdge(e, 0.5);
+    } else {
+      Manifold::Impl::Merger mg;
+      mg.totalCost = Manifold::Impl::Merger::kShort;
+      mg.addedCost = 0;
+      mg.a = 0.5;
+      mg.newPos = impl.vertPos_[impl.halfedge_.End(e)];
+      did = impl.CollapseEdge2(e, scratch, mg);
+    }
+    o << " ST1";
+    dump_state(o, impl);
+    long live = 0;
+    for (size_t t = 0; t < impl.halfedge_.size() / 3; ++t) live += impl.halfedge_.Pair(3 * t) >= 0;
+    o << " DID " << (did ? 1 : 0) << " LIVE " << live << " LIVE0 " << live0 << " SLOTS0 " << slots0;
+    puts(o.str().c_str());
+    fflush(stdout);
+  }
+  printf("X %s.end\n", id.c_str());
+}
